@@ -245,6 +245,18 @@ class RallyAiohttpHttpNode(AiohttpHttpNode):
             self._request_class = StaticRequest
             self._response_class = StaticResponse
 
+    async def perform_request(self, *args, **kwargs):
+        try:
+            return await super().perform_request(*args, **kwargs)
+        except BaseException:
+            # aiohttp only signals `on_request_exception` until the response *headers* have arrived. A request that fails
+            # later (timeout / disconnect while the body is read) ends now and not when its headers were received.
+            try:
+                RequestContextHolder.on_request_end()
+            except LookupError:
+                pass
+            raise
+
     def _create_aiohttp_session(self):
         if self._loop is None:
             self._loop = asyncio.get_running_loop()
